@@ -583,6 +583,8 @@ pub enum TOp {
   UnsubPre(usize),
   Complete,
   Error,
+  /// read len() / is_empty() (no expectation on the racing value; must return)
+  Size,
 }
 
 #[derive(Clone, Debug, Serialize, Deserialize)]
@@ -627,7 +629,7 @@ impl Scenario for C06Threads {
       let len = rng.range(1, 4);
       let mut ops = Vec::new();
       for i in 0..len {
-        let op = match rng.weighted(&[8, 3, 2, 2, 1, 1]) {
+        let op = match rng.weighted(&[8, 3, 2, 2, 1, 1, 2]) {
           0 => TOp::Next,
           1 => TOp::Subscribe,
           2 => TOp::UnsubOwn,
@@ -640,6 +642,7 @@ impl Scenario for C06Threads {
             terminal_used = true;
             TOp::Error
           }
+          6 => TOp::Size,
           _ => TOp::Next,
         };
         ops.push(op);
@@ -740,6 +743,12 @@ impl Scenario for C06Threads {
                 let ret = sh.stamp();
                 oplog.lock().unwrap().push(OpRec { tid: t, op: "unsubscribe".into(), item: 0, sub: k, invoke, ret });
               }
+            }
+            TOp::Size => {
+              let n = s.len();
+              let e = s.is_empty();
+              // a consistent pair when nothing races; under races only "returns" is required
+              let _ = (n, e);
             }
             TOp::Complete | TOp::Error => {
               let s = subject.take().unwrap();
